@@ -32,6 +32,9 @@ ROUTES = {
     "Differential(early).component_at": ("symbolic", True),
     "Differential.component.at":  ("forward", False),
     "Differential(early).component.at": ("symbolic", True),
+    # the same objects queried at one point after another (history inside the property's own check)
+    "Partial.at(kept object)":    ("forward", False),
+    "at(previous point);LocatedDifferential.component": ("reverse", False),
 }
 EXPR_ROUTES = ["Partial.as_expression", "Partial(early).as_expression", "Derivative.as_expression",
                "Derivative(early).as_expression", "Differential.component.as_expression",
@@ -78,6 +81,10 @@ def run_route(it, route, e, var_obj, var_name, point, number):
         return _m(it, _m(it, _ctor(it, "Differential", [e]), "component", var_name), "at", point)
     if route == "Differential(early).component.at":
         return _m(it, _m(it, _ctor(it, "Differential", [e], early), "component", var_obj), "at", point)
+    if route == "Partial.at(kept object)":
+        return _m(it, _ctor(it, "Partial", [e, var_obj]), "at", point)
+    if route == "at(previous point);LocatedDifferential.component":
+        return _m(it, _ctor(it, "LocatedDifferential", [e, point]), "component", var_obj)
     if route == "Partial.as_expression":
         return _m(it, _ctor(it, "Partial", [e, var_obj]), "as_expression")
     if route == "Partial(early).as_expression":
@@ -235,6 +242,40 @@ STAGES = {
     "Differential(early).component.at": (lambda it, e, vo, vn: _ctor(it, "Differential", [e], EARLY),
                                          lambda it, o, pt, vo, vn: _m(it, _m(it, o, "component", vo), "at", pt)),
 }
+
+
+def _located_after_at(it, e, pt, vo, vn):
+    from .interp import InterpRaise as _IR
+    prev = getattr(it, "_previous_point", None)
+    if prev is not None:
+        try:
+            _m(it, e, "at", prev)
+        except _IR:
+            pass
+    it._previous_point = pt
+    return _m(it, _ctor(it, "LocatedDifferential", [e, pt]), "component", vo)
+
+
+def _kept_partial_query(it, pair, pt, vo, vn):
+    """P.at(p); e.at(<the previous point>); P.at(p) again -- the last answer is judged"""
+    from .interp import InterpRaise as _IR
+    e, p = pair
+    prev = getattr(it, "_previous_point_kept", None)
+    try:
+        _m(it, p, "at", pt)
+    except _IR:
+        pass
+    if prev is not None:
+        try:
+            _m(it, e, "at", prev)
+        except _IR:
+            pass
+    it._previous_point_kept = pt
+    return _m(it, p, "at", pt)
+
+
+STAGES["Partial.at(kept object)"] = (lambda it, e, vo, vn: (e, _ctor(it, "Partial", [e, vo])), _kept_partial_query)
+STAGES["at(previous point);LocatedDifferential.component"] = (lambda it, e, vo, vn: e, _located_after_at)
 
 
 def _as_expr_first(it, p):
